@@ -10,6 +10,10 @@ str.split CSV parser, the "error_<coordinate>" naming rule):
   * graph.scale(s) for every valid field naming: the last coordinate and its error columns are
     multiplied by s / old scale, every other column keeps its value, scale() gives s; a zero or unknown
     scale raises LenaValueError; scale_to with a selector scales a group to the selected structure;
+  * the number-type axis: the same laws with target scales, weights and numbers of events of every real
+    number type (bool, subclasses of int and float, Fraction, Decimal for graphs, an int beyond 2**53),
+    through every driver, alone and before / after a plain target; the selector-form axis: scale_to and
+    GroupScale with the selector given as a string, a callable, a list, a tuple, a Selector;
   * histogram.add(other, weight): cell-wise a + w*b (and for n_out_of_range), operands unchanged,
     LenaValueError for different edges (values, shape, dimension), an exception for a non-histogram;
   * get_nevents equals the sum of the cells; set_nevents(n) makes get_nevents() equal n;
@@ -45,7 +49,11 @@ RULE = ("histograms: every shape with 1..3 bins per axis (thorough: up to 4 in o
         "beyond); graphs: 1..3 coordinates x every ordered choice of 0..3 error fields that is a valid "
         "naming x initial scale x number of points; every such structure goes once through every law "
         "(every target scale, pair of successive targets, driver, weight, n_out_of_range, get_coordinate "
-        "mode, index range, duplicate_last_bin setting, separator). A case is non-trivial when the "
+        "mode, index range, duplicate_last_bin setting, separator); one structure per (shape, edge "
+        "pools, coding) and the graphs with up to 2 error fields of two name sets (thorough: all) also "
+        "meet every typed number (a target / weight / number of events of another real type than plain "
+        "int and float) through every driver, and one-dimensional reference histograms select the scale "
+        "of a group through every form of selector x scale_to / GroupScale. A case is non-trivial when the "
         "operation really changed or converted more than one number: a rescale with factor != 1 of a "
         "structure with at least two cells/points or a non-zero n_out_of_range; an addition of "
         "histograms with at least two cells and a non-zero addend, or a rejected addition; a conversion "
@@ -57,6 +65,13 @@ ASSUMPTIONS = [
     "1-dimensional histograms use a flat edge list as lena documents",
     "target scales and weights are non-zero; a histogram is rescaled only while its cached scale is "
     "current (scale() before filling, as the docstring demands)",
+    "typed numbers: bool True, subclasses of int and float, Fraction (integral, dyadic and 1/3), the int "
+    "10**20, and Decimal as the (last) target of a graph only (graph.scale documents 'a numeric other'; "
+    "Python does not mix Decimal with the floats a histogram holds); complex numbers are no scales; with "
+    "a typed number among the arguments a result may be of any real number type and is judged by value",
+    "selectors of scale_to / GroupScale: the forms Selector documents (string = the context contains it, "
+    "callable on the value, list = or, tuple = and, a Selector object); exactly one structure of the "
+    "group is selected",
     "'up to rounding' is relative 1e-9, widened by the condition number of the integral when the old "
     "scale is itself the result of cancellation; a zero integral is demanded to raise only when it is "
     "zero both exactly and in floating point (integer / dyadic edges and contents)",
@@ -79,14 +94,18 @@ LEVEL_TEXT = ("bounded exhaustive exploration: every histogram of 1..3 dimension
               "small integer / dyadic / noisy-float / wide pools) and every graph with 1..3 coordinates and "
               "0..3 error fields in every valid naming order is put through every law of the statement "
               "(rescaling by every target and pair of targets and through ScaleTo / scale_to / GroupScale, "
+              "with targets, weights and event numbers of every real number type and selectors of every "
+              "documented form, "
               "add with every weight and with unequal edges, set_nevents, hist_to_graph in the three "
               "coordinate modes, the three cell iterators with every index range, CSV with every "
               "duplicate_last_bin setting) on the real code and judged by independent reference models")
 LEVEL_NOTE = ("holds for the enumerated structures only (at most 3-4 bins per axis, small numbers); "
-              "'up to rounding' is relative 1e-9; NumPy histograms, the deprecated Graph class, stale cached "
-              "scales and 3-dimensional CSV output are outside the alphabet")
+              "'up to rounding' is relative 1e-9; NumPy histograms and NumPy scalars, Decimal numbers with "
+              "histograms, the deprecated Graph class, stale cached scales and 3-dimensional CSV output are "
+              "outside the alphabet")
 TECHNIQUE = ("exhaustive enumeration of small histograms and graphs executed on the real code against "
-             "exact-arithmetic reference models (Fraction integral, product-order cell list, CSV parse-back)")
+             "exact-arithmetic reference models (Fraction integral, product-order cell list, CSV parse-back); "
+             "number arguments range over the real number types, selectors over their documented forms")
 
 LVE = "LenaValueError"
 
@@ -98,9 +117,15 @@ def describe(tier):
             "weights %r; graphs: 1..3 coordinates, 0..3 error fields in every valid order over 4 name "
             "sets, scale in {None, 0, 2, -0.5}, %r points; iter_cells index ranges: every (low, up) in "
             "{None, -1, 0..n} x {None, 0..n+1} per axis; duplicate_last_bin True/False by element and by "
-            "context" % (sorted(d["maxbins"].items()), d["contents"], d["max_exhaustive"],
-                         len(M.pool_combos(1, tier)), len(M.pool_combos(2, tier)),
-                         len(M.pool_combos(3, tier)), d["targets"], d["weights"], d["graph_points"]))
+            "context; typed numbers (targets through %r, weights, numbers of events): %s (Decimal for "
+            "graphs only) over %d histograms and %d graphs; selector forms %r x scale_to / GroupScale over "
+            "%d groups"
+            % (sorted(d["maxbins"].items()), d["contents"], d["max_exhaustive"],
+               len(M.pool_combos(1, tier)), len(M.pool_combos(2, tier)),
+               len(M.pool_combos(3, tier)), d["targets"], d["weights"], d["graph_points"],
+               VIAS, ", ".join("%s(%s)" % (k, t) for k, t in M.typed_numbers(tier, decimal=True)),
+               len(M.coded_specs(tier)), sum(1 for k, _ in _typed_items(tier) if k == "graph"),
+               SELECTOR_FORMS, len(_selector_items(tier)) // (2 * len(SELECTOR_FORMS) - 1)))
 
 
 # ---- helpers --------------------------------------------------------------------------------------------
@@ -136,8 +161,17 @@ def _report(res, case, problems, cause):
         res.violation(case, observed, expected, c)
 
 
+def _typed(numbers):
+    """("+"-joined kinds of the typed numbers among *numbers* or "", the comparison to use): results of
+    operations with plain ints and floats are judged as before (they must be ints or floats); with a
+    number of another real type among the arguments any real type is a legal type of a result."""
+    kinds = [M.kind_of(t) for t in numbers if M.is_typed(t)]
+    return "+".join(kinds), (M.rclose if kinds else M.close)
+
+
 def _apply_scale(obj, s, via):
     """Rescale *obj* to s through one of the drivers; return the structure to judge."""
+    s = M.number(s)
     if via == "method":
         r = obj.scale(s)
         if r is not None:
@@ -159,6 +193,9 @@ def _apply_scale(obj, s, via):
 def check_hist_scale(res, spec, targets, via="method", pre=False):
     case = {"law": "hist-scale", "hist": spec, "targets": list(targets), "via": via, "pre": pre}
     cause = {"law": "hist-scale", "dim": _dim(spec), "via": via, "step": 1}
+    typed, cl = _typed(targets)
+    if typed:
+        cause = {"law": "hist-scale-typed", "kinds": typed, "via": via, "step": 1}
     edges, bins, n_out = spec["edges"], spec["bins"], spec.get("n_out", 0)
     integral, mag, decidable = M.integral_info(edges, bins)
     cond = float(mag / abs(integral)) if integral else float("inf")
@@ -210,16 +247,17 @@ def check_hist_scale(res, spec, targets, via="method", pre=False):
             # zero exactly, not in floating point: nothing can be demanded of the factor
             outcome = "undecidable-zero"
             break
-        factor = Fraction(s) / old
-        exp_cells = [float(Fraction(c) * Fraction(s) / integral) for c in cells]
-        exp_n_out = float(Fraction(n_out) * Fraction(s) / integral)
+        sv = M.exact(s)
+        factor = sv / old
+        exp_cells = [float(Fraction(c) * sv / integral) for c in cells]
+        exp_n_out = float(Fraction(n_out) * sv / integral)
         got_cells = R.flat(h.bins) if M.shape_of(edges) == _shape_of_bins(h.bins) else None
         if got_cells is None:
             problems.append(("bins-shape", repr(h.bins), "shape %r" % (M.shape_of(edges),)))
             break
-        if not all(M.close(g, e, rel=rel) for g, e in zip(got_cells, exp_cells)):
+        if not all(cl(g, e, rel=rel) for g, e in zip(got_cells, exp_cells)):
             problems.append(("bins", got_cells, exp_cells))
-        if not M.close(h.n_out_of_range, exp_n_out, rel=rel):
+        if not cl(h.n_out_of_range, exp_n_out, rel=rel):
             problems.append(("n_out_of_range", h.n_out_of_range, exp_n_out))
         if repr(h.edges) != edges_before:
             problems.append(("edges", repr(h.edges), edges_before))
@@ -227,24 +265,27 @@ def check_hist_scale(res, spec, targets, via="method", pre=False):
             stored = h.scale()
         except Exception as e:
             stored = _exc(e)
-        if not M.close(stored, s, rel=rel):
+        if not cl(stored, sv if typed else s, rel=rel):
             problems.append(("stored-scale", stored, s))
         if factor != 1:
             changed = True
-        old = Fraction(s)
+        old = sv
         outcome = tuple(got_cells)
     else:
         # all targets applied: the scale recomputed from the contents is the last target
         s = targets[-1]
+        sv = M.exact(s)
         try:
             rec = h.scale(recompute=True)
         except Exception as e:
             rec = _exc(e)
-        hint = abs(float(Fraction(s) / integral * mag)) if integral else 0.0
-        if not M.close(rec, s, hint=hint, rel=rel):
+        hint = abs(float(sv / integral * mag)) if integral else 0.0
+        if not cl(rec, sv if typed else s, hint=hint, rel=rel):
             problems.append(("recomputed-scale", rec, s))
     nontrivial = changed and (len(cells) >= 2 or n_out != 0) and expect == "ok"
     res.case(nontrivial=nontrivial, outcome=(outcome, via))
+    if typed:
+        res.count("typed_number_cases")
     if outcome == LVE:
         res.count("hist_zero_scale_rejected")
     _report(res, case, problems, cause)
@@ -328,6 +369,9 @@ def check_graph_scale(res, gspec, targets, via="method"):
     resc = M.rescaled_columns(names, dim)
     cause = {"law": "graph-scale", "dim": dim, "via": via,
              "errors_of_last": len(resc) - 1, "errors_of_others": n_err - (len(resc) - 1)}
+    typed, cl = _typed(targets)
+    if typed:
+        cause = {"law": "graph-scale-typed", "kinds": typed, "via": via}
     problems = []
     outcome = None
     changed = False
@@ -359,7 +403,8 @@ def check_graph_scale(res, gspec, targets, via="method"):
             problems.append(("result-type", repr(g2), "the graph"))
             break
         g = g2
-        factor = Fraction(s) / Fraction(old)
+        sv = M.exact(s)
+        factor = sv / M.exact(old)
         for k in resc:
             exp[k] = [float(Fraction(v) * factor) for v in exp[k]]
         got = [list(c) for c in g.coords]
@@ -368,7 +413,7 @@ def check_graph_scale(res, gspec, targets, via="method"):
             break
         for k in range(len(exp)):
             if k in resc:
-                if not all(M.close(a, b) for a, b in zip(got[k], exp[k])):
+                if not all(cl(a, b) for a, b in zip(got[k], exp[k])):
                     problems.append(("last-coordinate" if k == dim - 1 else "error-of-last", got, exp))
             else:
                 if repr(got[k]) != repr(exp[k]):
@@ -377,13 +422,15 @@ def check_graph_scale(res, gspec, targets, via="method"):
             stored = g.scale()
         except Exception as e:
             stored = _exc(e)
-        if not M.close(stored, s):
+        if not cl(stored, sv if typed else s):
             problems.append(("stored-scale", stored, s))
         if factor != 1:
             changed = True
         old = s
         outcome = repr(got)
     res.case(nontrivial=changed and gspec["npoints"] >= 1, outcome=(outcome, via))
+    if typed:
+        res.count("typed_number_cases")
     if outcome == LVE:
         res.count("graph_zero_or_unknown_scale_rejected")
     _report(res, case, problems, cause)
@@ -391,10 +438,37 @@ def check_graph_scale(res, gspec, targets, via="method"):
 
 
 # ---- law: scale_to with a selector over a group ---------------------------------------------------------
-def check_group_scale(res, spec_ref, other, allow):
+SELECTOR_FORMS = ["str", "callable", "list", "tuple", "selector"]
+
+
+def _in_ref(value):
+    return "ref" in lena.flow.get_context(value)
+
+
+def _selector(form):
+    """The selector of the reference structure (the one whose context has the key "ref") in every form
+    GroupScale documents as "converted to a Selector": a string (the context contains it), a callable
+    (used as it is on the value), a list (or), a tuple (and), a ready Selector."""
+    if form == "str":
+        return "ref"
+    if form == "callable":
+        return _in_ref
+    if form == "list":
+        return ["absent", "ref"]
+    if form == "tuple":
+        return ("ref", _in_ref)
+    if form == "selector":
+        return lena.flow.Selector("ref")
+    raise KeyError(form)
+
+
+def check_group_scale(res, spec_ref, other, allow, sel="str", via="scale_to"):
     """group = [(reference histogram, {"ref": 1}), (other structure, {})]; scale_to("ref", group)."""
     case = {"law": "group-scale", "ref": spec_ref, "other": other, "allow": allow}
     cause = {"law": "group-scale", "other": other["kind"], "allow": allow}
+    if (sel, via) != ("str", "scale_to"):
+        case.update({"selector": sel, "via": via})
+        cause.update({"selector": sel, "via": via})
     problems = []
     i_ref, mag_ref, dec_ref = M.integral_info(spec_ref["edges"], spec_ref["bins"])
     href = build_hist(spec_ref)
@@ -414,10 +488,11 @@ def check_group_scale(res, spec_ref, other, allow):
     group = [(href, {"ref": 1}), (ob, {"k": 2})]
     before_o = M.snapshot(ob) if other["kind"] == "hist" else repr(ob.coords)
     try:
-        if allow:
-            lena.flow.scale_to("ref", group, allow_zero_scale=True, allow_unknown_scale=True)
+        kw = {"allow_zero_scale": True, "allow_unknown_scale": True} if allow else {}
+        if via == "scale_to":
+            lena.flow.scale_to(_selector(sel), group, **kw)
         else:
-            lena.flow.scale_to("ref", group)
+            lena.flow.GroupScale(_selector(sel), **kw)(group)
         raised = None
     except Exception as e:
         raised = type(e).__name__
@@ -484,6 +559,10 @@ def _edge_relation(ea, eb):
 def check_add(res, spec_a, spec_b, weight, label):
     case = {"law": "add", "a": spec_a, "b": spec_b, "weight": weight, "label": label}
     cause = {"law": "add", "edges": label, "dim": _dim(spec_a), "weight_is_one": weight == 1}
+    typed, cl = _typed([weight])
+    if typed:
+        cause = {"law": "add-typed", "edges": label, "kinds": typed}
+    weight = M.number(weight)   # a new number object for this execution
     a, b = build_hist(spec_a), build_hist(spec_b)
     rel_edges = _edge_relation(spec_a["edges"], spec_b["edges"])
     snap_a, snap_b = M.snapshot(a), M.snapshot(b)
@@ -516,10 +595,10 @@ def check_add(res, spec_a, spec_b, weight, label):
                 problems.append(("bins-shape", repr(r.bins), exp))
             else:
                 got = R.flat(r.bins)
-                if not all(M.close(g, e) for g, e in zip(got, exp)):
+                if not all(cl(g, e) for g, e in zip(got, exp)):
                     problems.append(("bins", got, exp))
                 outcome = tuple(got)
-            if not M.close(r.n_out_of_range, exp_n):
+            if not cl(r.n_out_of_range, exp_n):
                 problems.append(("n_out_of_range", r.n_out_of_range, exp_n))
             if _edge_relation(r.edges, spec_a["edges"]) not in ("equal", rel_edges):
                 problems.append(("result-edges", repr(r.edges), repr(spec_a["edges"])))
@@ -542,12 +621,14 @@ def check_add(res, spec_a, spec_b, weight, label):
             r2 = a2.add(b2) if weight is None else a2.add(b2, weight)
             got_s = scale_of(r2)
             want_s = scale_of(histogram(M.copy_edges(r2.edges), M.copy_bins(r2.bins)))
-            same = got_s == want_s or (got_s[0] == want_s[0] == "ok" and M.close(got_s[1], want_s[1]))
+            same = got_s == want_s or (got_s[0] == want_s[0] == "ok" and cl(got_s[1], want_s[1]))
             if not same:
                 problems.append(("scale-of-sum-after-operand-scale", got_s, want_s))
         except Exception as e:  # noqa
             problems.append(("exception-after-operand-scale", type(e).__name__, "a + w*b"))
     res.case(nontrivial=nontrivial, outcome=(outcome, label))
+    if typed:
+        res.count("typed_number_cases")
     if raised == LVE:
         res.count("add_rejected")
     _report(res, case, problems, cause)
@@ -596,6 +677,10 @@ def check_add_non_histogram(res, spec, kind):
 def check_nevents(res, spec, n, inc):
     case = {"law": "nevents", "hist": spec, "n": n, "include_out_of_range": inc}
     cause = {"law": "nevents", "dim": _dim(spec), "include_out_of_range": inc}
+    typed, cl = _typed([n])
+    if typed:
+        cause = {"law": "nevents-typed", "kinds": typed, "include_out_of_range": inc}
+    n_obj, nv = M.number(n), M.exact(n)
     cells = R.flat(spec["bins"])
     n_out = spec.get("n_out", 0)
     total, mag = M.sum_info(cells + ([n_out] if inc else []))
@@ -609,9 +694,9 @@ def check_nevents(res, spec, n, inc):
         problems.append(("get_nevents", got, float(total)))
     try:
         if inc:
-            r = h.set_nevents(n, include_out_of_range=True)
+            r = h.set_nevents(n_obj, include_out_of_range=True)
         else:
-            r = h.set_nevents(n)
+            r = h.set_nevents(n_obj)
         raised = None
     except Exception as e:
         raised = type(e).__name__
@@ -623,12 +708,12 @@ def check_nevents(res, spec, n, inc):
     elif raised is not None:
         problems.append(("exception", raised, "rescaled"))
     else:
-        hint = abs(float(Fraction(n) * mag / abs(total)))
+        hint = abs(float(nv * mag / abs(total)))
         try:
             after = h.get_nevents(include_out_of_range=inc)
         except Exception as e:
             after = _exc(e)
-        if not M.close(after, n, hint=hint):
+        if not cl(after, nv if typed else n, hint=hint):
             problems.append(("get_nevents-after-set", after, n))
         if _shape_of_bins(h.bins) != M.shape_of(spec["edges"]):
             problems.append(("bins-shape", repr(h.bins), n))
@@ -636,13 +721,15 @@ def check_nevents(res, spec, n, inc):
             new_cells = R.flat(h.bins)
             if all(M.is_num(v) for v in new_cells) and M.is_num(h.n_out_of_range):
                 ref_total = math.fsum(new_cells + ([h.n_out_of_range] if inc else []))
-                if not M.close(ref_total, n, hint=hint):
+                if not cl(ref_total, nv if typed else n, hint=hint):
                     problems.append(("sum-of-cells-after-set", ref_total, n))
             else:
                 problems.append(("sum-of-cells-after-set", repr(h.bins), n))
             outcome = tuple(new_cells) + (h.n_out_of_range,)
-        nontrivial = (len(cells) >= 2 or inc) and Fraction(n) != total
+        nontrivial = (len(cells) >= 2 or inc) and nv != total
     res.case(nontrivial=nontrivial, outcome=(outcome, inc))
+    if typed:
+        res.count("typed_number_cases")
     _report(res, case, problems, cause)
     return case
 
@@ -1135,11 +1222,90 @@ def _group_items(tier):
     return out
 
 
+def _typed_items(tier):
+    """Work items of the number-type axis: every structure below meets every typed number of the tier
+    (M.typed_numbers) as target scale (through every driver), weight or number of events."""
+    out = []
+    thorough = tier == "thorough"
+    out.extend(("hist", spec) for spec in M.coded_specs(tier))
+    out.extend(("nevents", spec) for spec in M.coded_specs(tier))
+    for dim in (1, 2, 3):
+        for _d, names in M.graph_namings(dim, 3 if thorough else 2,
+                                         name_sets=None if thorough else [0, 3]):
+            for sc in GRAPH_SCALES:
+                out.append(("graph", {"dim": dim, "names": list(names), "scale": sc, "npoints": 3,
+                                      "as_string": False}))
+    for shape, pools, edges in M.frames(tier):
+        n = M.ncells(shape)
+        a = {"edges": edges, "bins": M.nest(M.coded("int", n), shape)}
+        for coding in M.CODINGS:
+            out.append(("add", (a, {"edges": edges, "bins": M.nest(M.coded(coding, n), shape)})))
+    return out
+
+
+def _run_typed_item(res, tier, kind, item):
+    nums = M.typed_numbers(tier)
+    case = None
+    if kind == "hist":
+        s = with_n_out(item, 3)
+        for t in nums:
+            for via in VIAS:
+                case = check_hist_scale(res, s, [t], via, False)
+            check_hist_scale(res, s, [t], "method", True)
+            check_hist_scale(res, s, [t, 2], "method", False)
+            check_hist_scale(res, s, [-3, t], "method", False)
+    elif kind == "graph":
+        # graph.scale documents "a numeric other": Decimal too (as the last target: the graph then holds
+        # a Decimal scale, which Python does not divide a float by)
+        for t in M.typed_numbers(tier, decimal=True):
+            for via in VIAS:
+                case = check_graph_scale(res, item, [t], via)
+            if item["scale"]:
+                check_graph_scale(res, item, [-3, t], "method")
+                if M.kind_of(t) != "Decimal":
+                    check_graph_scale(res, item, [t, 2], "method")
+    elif kind == "nevents":
+        for t in nums:
+            for inc in (False, True):
+                case = check_nevents(res, with_n_out(item, 3), t, inc)
+    elif kind == "add":
+        a, b = item
+        for t in nums:
+            case = check_add(res, with_n_out(a, 3), with_n_out(b, 0.5), t, "same")
+    else:
+        raise KeyError(kind)
+    return case
+
+
+def _selector_items(tier):
+    """(reference histogram, other structure, selector form, driver): every documented form of a
+    selector given to scale_to and to GroupScale (the form "str" through scale_to is law "group")."""
+    refs = M.coded_specs(tier, dims=(1,), codings=["signed"])
+    others = []
+    for s in M.coded_specs(tier, dims=(1, 2), codings=["half"]):
+        others.append({"kind": "hist", "spec": with_n_out(s, 3)})
+    for dim in (1, 2, 3):
+        for _d, names in M.graph_namings(dim, 1, name_sets=[0]):
+            for sc in GRAPH_SCALES:
+                others.append({"kind": "graph", "gspec": {"dim": dim, "names": list(names), "scale": sc,
+                                                          "npoints": 2, "as_string": False}})
+    out = []
+    for r in refs:
+        for o in others:
+            for via in ("scale_to", "GroupScale"):
+                for form in SELECTOR_FORMS:
+                    if (form, via) != ("str", "scale_to"):
+                        out.append((with_n_out(r, 0.5), o, form, via))
+    return out
+
+
 GROUPS = [
     # (law group, number of chunks quick, thorough)
     ("hscale", 24, 48),
     ("gscale", 8, 12),
     ("group", 2, 8),
+    ("typed", 4, 17),
+    ("selector", 1, 4),
     ("add", 12, 32),
     ("unequal", 2, 4),
     ("nevents", 6, 16),
@@ -1216,6 +1382,15 @@ def run_shard(p, tier):
             for allow in (False, True):
                 case = check_group_scale(res, r, o, allow)
             res.sample(case, 2)
+    elif law == "typed":
+        for kind, item in _mine(_typed_items(tier), p):
+            case = _run_typed_item(res, tier, kind, item)
+            res.sample(case, 2)
+    elif law == "selector":
+        for r, o, form, via in _mine(_selector_items(tier), p):
+            for allow in (False, True):
+                case = check_group_scale(res, r, o, allow, form, via)
+            res.sample(case, 2)
     elif law == "add":
         for a, b, label in _mine(_add_pairs(tier), p):
             for na, nb in ((0, 0), (3, 0.5)):
@@ -1287,7 +1462,8 @@ def replay(case):
     elif law == "graph-scale":
         check_graph_scale(res, case["graph"], case["targets"], case["via"])
     elif law == "group-scale":
-        check_group_scale(res, case["ref"], case["other"], case["allow"])
+        check_group_scale(res, case["ref"], case["other"], case["allow"], case.get("selector", "str"),
+                          case.get("via", "scale_to"))
     elif law == "add":
         check_add(res, case["a"], case["b"], case["weight"], case["label"])
     elif law == "add-non-histogram":
